@@ -65,9 +65,10 @@ func execRMD(via string, allow []string, prefix string, data []byte) string {
 }
 
 var (
-	rmdKeys = []string{"x-a", "X-A", "x-A", "X-b", "x-b", "authorization", "Authorization", "grpc-timeout", "Grpc-Timeout", "x-bin", "X-Bin", "content-type", "a", "x_c", "x.d", "x-a-", "-x", "x--a", "9k", "x-é", "x-\xe2\x84\xaa", "\xe2\x84\xaa", "x a", "x-a ", "x\ta", "x\x00a", "x(a)", "x-a:", ""}
-	rmdVals = []string{"v", "1", "hello world", "a, b", " lead", "trail ", "\tv\t", "", "10S", "30S", "5m", "QUJD", "é", "\xff", "a\x00b", "a\x7fb", "a\rb", "a\x01", "a:b", ":", "\"q\"", strings.Repeat("L", 5000)}
+	rmdKeys   = []string{"x-a", "X-A", "x-A", "X-b", "x-b", "authorization", "Authorization", "grpc-timeout", "Grpc-Timeout", "x-bin", "X-Bin", "content-type", "a", "x_c", "x.d", "x-a-", "-x", "x--a", "9k", "x-é", "x-\xe2\x84\xaa", "\xe2\x84\xaa", "x a", "x-a ", "x\ta", "x\x00a", "x(a)", "x-a:", ""}
+	rmdVals   = []string{"v", "1", "hello world", "a, b", " lead", "trail ", "\tv\t", "", "10S", "30S", "5m", "QUJD", "é", "\xff", "a\x00b", "a\x7fb", "a\rb", "a\x01", "a:b", ":", "\"q\"", strings.Repeat("L", 5000)}
 	rmdAllows = [][]string{{"x-a", "x-b"}, {"X-A"}, {"authorization", "x-bin"}, {"k"}, {"x-k", "x-a "}, {"x a", "x-a", "grpc-timeout"}, {}, {"x-a", "x_c", "x.d", "9k", "-x", "x-a-", "x--a", "content-type"}}
+	rmdBroad  = []string{"x-a", "x-b", "authorization", "x-bin", "content-type", "a", "x_c", "x.d", "x-a-", "-x", "x--a", "9k", "x a", "x-a ", "k", "x-k", "x-\xc3\xa9"}
 	rmdFixed  = []string{
 		"", "\r\n", "\n", "x-a: 1", "x-a: 1\r\n", "x-a: 1\n", "x-a: 1\r", "x-a: 1\r\r\n", "x-a: 1\r\n\r\n", "x-a: 1\r\n\r\nx-b: 2\r\n", "x-a: 1\r\n\r\nbroken\r\n",
 		"x-a:1\r\n", "x-a:\r\n", "x-a\r\n", "x-a 1\r\n", ": 1\r\n", " x-a: 1\r\n", "\tx-a: 1\r\n", "x-a : 1\r\n", "x-a: 1\r\n 2\r\n", "x-a: 1\r\n\t2\r\n\t 3 \r\n", "x-a: 1\r\n \r\n", "x-a: 1\r\n \r\nx-b: 2\r\n",
@@ -81,11 +82,11 @@ func genRMDFrame(r *rand.Rand) string {
 	var sb strings.Builder
 	for n := r.Intn(5); n > 0; n-- {
 		k, v := common.Pick(r, rmdKeys), common.Pick(r, rmdVals)
-		if r.Intn(3) != 0 { // mostly well-formed names and values
+		if r.Intn(4) != 0 { // mostly well-formed names and values
 			k, v = common.Pick(r, rmdKeys[:20]), common.Pick(r, rmdVals[:12])
 		}
 		sep := common.Pick(r, []string{": ", ": ", ": ", ":", ":  ", ":\t", " : ", ""})
-		eol := common.Pick(r, []string{"\r\n", "\r\n", "\r\n", "\r\n", "\n", "\r", "", "\r\r\n", "\r\n\r\n"})
+		eol := common.Pick(r, []string{"\r\n", "\r\n", "\r\n", "\r\n", "\r\n", "\r\n", "\r\n", "\r\n", "\n", "\n", "\r", "", "\r\r\n", "\r\n\r\n"})
 		sb.WriteString(k + sep + v + eol)
 		if r.Intn(6) == 0 {
 			sb.WriteString(common.Pick(r, []string{" cont\r\n", "\tcont \r\n", " \r\n", "  a: b\r\n", " \x00\r\n"}))
@@ -103,13 +104,17 @@ func genRMD(r *rand.Rand, tier string, emit func(string)) {
 		emit("rmd " + via + " " + fake.ShowList(allow) + " " + common.HexS(prefix) + " " + common.HexS(data))
 	}
 	for i, d := range rmdFixed {
-		line([]string{"direct", "bridge"}[i%2], []string{"x-a", "x-b", "k", "x-k", "x-a ", "grpc-timeout"}, "", d)
+		line([]string{"direct", "bridge"}[i%2], rmdBroad, "", d)
 	}
 	n := 400
 	if tier == "thorough" {
 		n = 20000
 	}
 	for i := 0; i < n; i++ {
-		line(common.Pick(r, []string{"direct", "direct", "bridge"}), rmdAllows[r.Intn(len(rmdAllows))], common.Pick(r, []string{"", "", "p-"}), genRMDFrame(r))
+		allow := rmdBroad // mostly an allow-list naming the whole key pool, so that what the parser made of the lines is visible at the target
+		if r.Intn(3) == 0 {
+			allow = rmdAllows[r.Intn(len(rmdAllows))]
+		}
+		line(common.Pick(r, []string{"direct", "direct", "bridge"}), allow, common.Pick(r, []string{"", "", "p-"}), genRMDFrame(r))
 	}
 }
